@@ -100,6 +100,10 @@ func managerScenario(w *trace.Writer, seed int64) bool {
 			for j, nm := 0, r.Intn(4); j < nm; j++ {
 				fs.Msgs = append(fs.Msgs, []string{"u", "u", "s"}[r.Intn(3)])
 			}
+			if r.Intn(5) == 0 {
+				// the stream's first message carries nothing (Connect is due all the same, no other callback)
+				fs.Msgs = append([]string{"e"}, fs.Msgs...)
+			}
 			script = append(script, fs)
 		}
 		s.mu.Lock()
